@@ -297,8 +297,10 @@ def ordering(ctx, report, m, f):
             if tv is None:
                 cont = None
                 break
-            # continuing edge = reaches the value read of this iteration
-            if m.dispatch_entry in g.reach(tb, avoid=(sw,)):
+            # continuing edge = reaches the value read of this iteration (tracking
+            # boolean temporaries such as the one `matches!` introduces)
+            from kernel import feasible_reach
+            if m.dispatch_entry in feasible_reach(an, tb):
                 s = CMP_TRUE[t.callee.name] if tv else ALL_ORD - CMP_TRUE[t.callee.name]
                 if flipped:
                     s = {FLIP[x] for x in s}
